@@ -52,6 +52,27 @@ pub extern "C" fn plugin_arc_clone_drop(a: CArc<c_void>) -> CArc<c_void> {
     drop(a);
     c
 }
+/// a group whose instance will ask, when it is destroyed, whether context `tag` (owned by the host) is still alive
+#[no_mangle]
+pub extern "C" fn plugin_group_tagged(seed: u64, ctx: CArc<c_void>, tag: u64) -> StoreGroupArcBox<'static> {
+    let mut m = Mem::new(seed);
+    m.ctx_tag = tag;
+    group_obj!((m, ctx) as StoreGroup)
+}
+#[no_mangle]
+pub extern "C" fn plugin_store_tagged(seed: u64, ctx: CArc<c_void>, tag: u64) -> StoreArcBox<'static> {
+    let mut m = Mem::new(seed);
+    m.ctx_tag = tag;
+    trait_obj!((m, ctx) as Store)
+}
+#[no_mangle]
+pub extern "C" fn plugin_set_ctx_probe(f: extern "C" fn(u64) -> bool) {
+    xapi::CTX_ALIVE_PROBE.store(f as usize, std::sync::atomic::Ordering::SeqCst);
+}
+#[no_mangle]
+pub extern "C" fn plugin_late_destructors() -> u64 {
+    xapi::LATE_DESTRUCTORS.load(std::sync::atomic::Ordering::SeqCst)
+}
 #[no_mangle]
 pub extern "C" fn plugin_marks() -> [u64; 2] {
     [xapi::vmon::tracked::mark(), xapi::vmon::alloc::seq()]
